@@ -1465,8 +1465,8 @@ def run(ctx):
     ctx.log("proof step done")
 
     # -------------------------------------------------- InterCoefficient tie
-    nfloat = 120 if ctx.quick else 1500
-    nexact = 100 if ctx.quick else 1200
+    nfloat = 120 if ctx.quick else 1000
+    nexact = 100 if ctx.quick else 800
     npoly = 30 if ctx.quick else 400
     fcases = witness_cases()
     cdir = os.path.join(vlib.VERIF, "corpus", "C06")
